@@ -8,7 +8,7 @@
    the remaining operations are tied by the correspondence run (three-way with std::vec::Vec) only. *)
 From Coq Require Import ZArith List Bool Lia.
 From MV Require Import Ast Eval Scalar Machine Model Policy.
-From MV.Proofs Require Import Arith Logic Prim View OpsLocal Guards Grow CapHistory Drops DrainIt Core Refine.
+From MV.Proofs Require Import Arith Logic Prim View OpsLocal Guards Grow CapHistory Drops DrainIt Core Refine Clone Append.
 Import ListNotations.
 Open Scope Z_scope.
 
@@ -190,3 +190,19 @@ Print Assumptions C01_pop_returns_the_last_element.
 Print Assumptions C01_remove_returns_the_indexed_element.
 Print Assumptions C01_swap_remove_moves_the_last_element_into_the_hole.
 Print Assumptions C01_insert_any_capacity.
+
+(* append(&mut self, other): from EVERY pair of storage states (each of the two never allocated,
+   empty, full, with spare capacity ...): self holds its elements followed by other's, in order; other
+   is empty; no element is created, destroyed or duplicated (the ledger is untouched); a refused
+   reservation (capacity overflow) leaves both vectors exactly as they were *)
+Theorem C01_append_is_list_concatenation :
+  forall cfg ncap, cfg_ok cfg -> policy_ok ncap ->
+  forall s v o lv lo,
+  vabs cfg s v lv -> vabs cfg s o lo -> v <> o ->
+  (forall bv blv bo blo, vec_at s v bv blv -> vec_at s o bo blo -> bv <> bo) ->
+  NoDup (lv ++ lo) ->
+  post (append cfg ncap v o s)
+    (fun _ s' => vabs cfg s' v (lv ++ lo) /\ vabs cfg s' o [] /\ only_changes s s' [])
+    (fun s' => s' = s).
+Proof. exact append_abs. Qed.
+Print Assumptions C01_append_is_list_concatenation.
